@@ -591,8 +591,8 @@ impl Expression {
                 continue;
             }
 
-            // parse `...xxx`
-            if peek == '.' {
+            // parse `...xxx` (a single `.` starts a number such as `.5`)
+            if peek == '.' && ps.peek_str("...") {
                 let Some(location) = ps.consume_str("...") else {
                     ps.add_warning_at_current_position(
                         ParseErrorKind::UnexpectedExpressionCharacter,
